@@ -183,6 +183,10 @@ impl $name {
     async fn delay(&mut self, v: u8) -> Result<(), Error> { self.call(format!("TRIG:SEQ:DEL({v})")); Ok(()) }
     #[scpi(cmd = "TRIGger:DELay?")]
     async fn delay_q(&mut self) -> Result<u8, Error> { self.call("TRIG:DEL?".into()); Ok(8) }
+    #[scpi(cmd = "MEASure:NOTHing?")]
+    async fn nothing(&mut self) -> Result<(), Error> { self.call("MEAS:NOTH?".into()); Ok(()) }
+    #[scpi(cmd = "CALibration:TEMPeratureOffset")]
+    async fn cal_off(&mut self, v: u8) -> Result<(), Error> { self.call(format!("CAL:TEMPO({v})")); Ok(()) }
     #[scpi(cmd = "MATH:SIZE?")]
     async fn size(&mut self, a: usize, b: isize) -> Result<(usize, isize), Error> { self.call(format!("MATH:SIZE?({a},{b})")); Ok((a, b)) }
 }
